@@ -16,6 +16,15 @@ dirs = sorted(d for d in glob.glob(os.path.join(VERIF, "seeded", "*")) if os.pat
 respath = os.path.join(VERIF, "seeded", "RESULTS.json")
 results = json.load(open(respath)) if os.path.exists(respath) else {}
 assert subprocess.run(["git", "-C", "/repo", "status", "--porcelain", "--untracked-files=no"], capture_output=True, text=True).stdout.strip() == "", "/repo has local changes"
+import shutil, tempfile
+_evbak = tempfile.mkdtemp(prefix="evidence-bak-")
+shutil.copytree(os.path.join(VERIF, "evidence"), os.path.join(_evbak, "evidence"))   # evidence files describe the unchanged tree: put them back afterwards
+import atexit
+def _restore():
+    shutil.rmtree(os.path.join(VERIF, "evidence"), ignore_errors=True)
+    shutil.copytree(os.path.join(_evbak, "evidence"), os.path.join(VERIF, "evidence"))
+    shutil.rmtree(_evbak, ignore_errors=True)
+atexit.register(_restore)
 for d in dirs:
     name = os.path.basename(d)
     meta = json.load(open(os.path.join(d, "meta.json")))
